@@ -158,4 +158,73 @@ theorem eval_single_tag (has : List Char → Bool) (t : List Char) (hv : isValid
       unfold evalLit
       split <;> simp_all
 
+
+/-! ## `$VAR` / `$(command)` expansion in link directives (`xtool/env`) -/
+
+/-- `os.Expand` on a rendered template yields the literal text with every reference replaced by the value of
+    exactly the referenced variable — values are inserted verbatim (never re-expanded), whatever they contain -/
+theorem osExpand_render (env : List Char → List Char) (ps : List Piece) (h : ∀ p ∈ ps, p.WF) (fuel : Nat)
+    (hf : (renderAll ps).length ≤ fuel) :
+    osExpand env fuel (renderAll ps) = denoteAll env ps := by
+  induction ps generalizing fuel with
+  | nil => simp [renderAll, denoteAll, osExpand_nil]
+  | cons p ps ih =>
+    have hp := h p (List.mem_cons_self ..)
+    have hps : ∀ q ∈ ps, q.WF := fun q hq => h q (List.mem_cons_of_mem _ hq)
+    rw [renderAll_cons, denoteAll_cons]
+    rw [renderAll_cons] at hf
+    cases p with
+    | lit t =>
+      simp only [Piece.render, Piece.denote, List.length_append] at hf ⊢
+      have := osExpand_lit (k := 0) env t (renderAll ps) hp fuel (by omega)
+      simp only [Nat.add_zero] at this
+      rw [this, ih hps _ (by omega)]
+    | var n =>
+      simp only [Piece.render, Piece.denote, List.length_append, List.length_cons] at hf ⊢
+      obtain ⟨f, rfl⟩ : ∃ f, fuel = f + 1 := ⟨fuel - 1, by omega⟩
+      have e : ('$' :: '{' :: (n ++ ['}']) ++ renderAll ps) = '$' :: '{' :: (n ++ '}' :: renderAll ps) := by simp
+      rw [e, osExpand_var env n (renderAll ps) hp.1 hp.2.1 f, ih hps f (by simp at hf; omega)]
+
+/-- one `$(…)` directive: the text before it is kept, the directive is replaced by exactly the value of ITS command
+    line (`subcmdValue`: the trimmed output of `pkg-config`/`llvm-config` run with exactly the words of the directive,
+    newlines as blanks; nothing for a foreign or failing command), and the rest is processed the same way -/
+theorem replaceSubcmds_cmd (cmdOut) (t inner rest : List Char) (ht : '$' ∉ t) (hne : inner ≠ []) (hi : ')' ∉ inner)
+    (fuel : Nat) (hf : t.length < fuel) :
+    replaceSubcmds cmdOut fuel (t ++ '$' :: '(' :: (inner ++ ')' :: rest)) =
+      match subcmdValue cmdOut inner, replaceSubcmds cmdOut (fuel - t.length - 1) rest with
+      | some (v, cfg), some (r, cfg') => some (t ++ v ++ r, cfg || cfg')
+      | _, _ => none := by
+  induction t generalizing fuel with
+  | nil =>
+    obtain ⟨f, rfl⟩ : ∃ f, fuel = f + 1 := ⟨fuel - 1, by simp at hf; omega⟩
+    have hie : inner.isEmpty = false := by cases inner <;> simp_all
+    simp only [List.nil_append, List.length_nil, Nat.sub_zero, Nat.add_sub_cancel]
+    conv => lhs; unfold replaceSubcmds
+    simp only [if_true, splitParen_close inner rest hi, hie, Bool.false_eq_true, if_false]
+    cases subcmdValue cmdOut inner <;> cases replaceSubcmds cmdOut f rest <;> simp
+  | cons c cs ih =>
+    have hc : c ≠ '$' := by intro e; apply ht; simp [e]
+    have hcs : '$' ∉ cs := by intro e; apply ht; simp [e]
+    obtain ⟨f, rfl⟩ : ∃ f, fuel = f + 1 := ⟨fuel - 1, by simp at hf; omega⟩
+    have := ih hcs f (by simp at hf; omega)
+    simp only [List.cons_append, List.length_cons]
+    conv => lhs; unfold replaceSubcmds
+    simp only [hc, if_false, this]
+    have e : f + 1 - (cs.length + 1) - 1 = f - cs.length - 1 := by omega
+    rw [e]
+    cases subcmdValue cmdOut inner <;> cases replaceSubcmds cmdOut (f - cs.length - 1) rest <;> simp
+
+/-- **`$VAR` expansion in link directives substitutes exactly the referenced values.**  For every template made of
+    literal text (without `$`) and `${NAME}` references, `expandEnvWithCmd` returns the literal text with each reference
+    replaced by the value of exactly that variable, trimmed; no sub-command runs and the pkg-config flag stays false. -/
+theorem expandEnv_render (cmdOut) (env : List Char → List Char) (ps : List Piece) (h : ∀ p ∈ ps, p.WF) :
+    expandEnvWithCmd cmdOut env (renderAll ps) = some (trimChars (denoteAll env ps), false) := by
+  unfold expandEnvWithCmd
+  rw [replaceSubcmds_noSub cmdOut _ (noSub_render ps h)]
+  simp only
+  rw [osExpand_render env ps h _ (by omega)]
+
+example : ∀ p ∈ [Piece.lit "-L".toList, Piece.var "ROOT".toList, Piece.lit "/lib -l".toList, Piece.var "x y".toList], p.WF := by
+  simp [Piece.WF]
+
 end LlgoVerif.Shell
